@@ -26,6 +26,10 @@ func (r *verifRng) intn(n int) int {
 }
 
 func verifRandScalar(r *verifRng, nulls bool) JsonNode {
+	if r.intn(6) == 0 {
+		// numbers that differ only in sign, or only slightly
+		return []JsonNode{jsonNumber(-1), jsonNumber(-2), jsonNumber(7.5), jsonNumber(-7.5), jsonNumber(1700000000), jsonNumber(1700000001), jsonNumber(0)}[r.intn(7)]
+	}
 	switch r.intn(9) {
 	case 0, 1:
 		return jsonNumber(1)
